@@ -4,6 +4,7 @@ import (
 	"bytes"
 	"fmt"
 	"io"
+	"time"
 
 	"github.com/gregoryv/mq"
 
@@ -214,6 +215,16 @@ func runC19(x *core.Ctx) {
 			_ = p
 		}
 	}
+	// (5) "never block": Dump (and String) of one packet while a Dump of
+	// another packet sits inside its writer (a log sink that is slow or
+	// stalled): the renderings of unrelated packets do not wait for each other
+	if x.Shard == 0 {
+		for _, t := range allTypes {
+			t := t
+			x.Eval("dump-while-another-dump-is-inside-its-writer")
+			report(c19Stalled(t), core.Case{Harness: "c19.stalled", Params: map[string]any{"type": int(t)}}, func() *core.Finding { return c19Stalled(t) })
+		}
+	}
 	// (4) all 256 values of each rendered byte
 	for fam, frames := range c19ByteFrames() {
 		_ = fam
@@ -272,8 +283,83 @@ func runC19(x *core.Ctx) {
 	_ = spec.DefaultFlags
 }
 
+// gateWriter blocks inside its first Write until released.
+type gateWriter struct {
+	entered chan struct{}
+	release chan struct{}
+	once    bool
+}
+
+func (g *gateWriter) Write(p []byte) (int, error) {
+	if !g.once {
+		g.once = true
+		close(g.entered)
+		<-g.release
+	}
+	return len(p), nil
+}
+
+// c19Stalled: goroutine 1 dumps a packet of type t into a writer that stalls
+// inside Write; meanwhile the main goroutine's partner dumps and renders
+// another packet into a buffer. That second rendering has nothing to wait
+// for; if it has not returned after 20 s (it takes microseconds) it is
+// blocked on the first one. No schedule is sampled: the first Dump is held
+// inside its writer for as long as the second one runs.
+func c19Stalled(t byte) *core.Finding {
+	resetGlobals()
+	p, err, res := buildGuarded(richPacket(t, true))
+	q, err2, res2 := buildGuarded(richPacket(4, true))
+	if err != nil || err2 != nil || res.Panic != "" || res2.Panic != "" {
+		return nil
+	}
+	g := &gateWriter{entered: make(chan struct{}), release: make(chan struct{})}
+	done1 := make(chan struct{})
+	go func() {
+		defer close(done1)
+		defer func() { recover() }()
+		mq.Dump(g, p)
+	}()
+	select {
+	case <-g.entered:
+	case <-done1:
+		return nil // this Dump writes nothing
+	case <-time.After(20 * time.Second):
+		return nil
+	}
+	done2 := make(chan struct{})
+	go func() {
+		defer close(done2)
+		defer func() { recover() }()
+		var b bytes.Buffer
+		mq.Dump(&b, q)
+		_ = q.String()
+		_ = p.String()
+	}()
+	var f *core.Finding
+	select {
+	case <-done2:
+	case <-time.After(20 * time.Second):
+		f = &core.Finding{Class: "blocks/Dump-while-another-Dump-is-inside-its-writer", Sig: map[string]string{"type": bind.TypeNames[t]},
+			Detail: fmt.Sprintf("while Dump of a %s is inside its writer's Write (a stalled log sink), Dump and String of an unrelated PUBACK into a bytes.Buffer have not returned after 20 s: renderings block each other", bind.TypeNames[t])}
+	}
+	close(g.release)
+	select {
+	case <-done1:
+	case <-time.After(20 * time.Second):
+	}
+	if f != nil {
+		select {
+		case <-done2:
+		case <-time.After(5 * time.Second):
+		}
+	}
+	return f
+}
+
 func replayC19(c core.Case) *core.Finding {
 	switch c.Harness {
+	case "c19.stalled":
+		return c19Stalled(byte(paramInt(c.Params, "type")))
 	case "c19.raw":
 		f, _ := c19Raw(rawFromCase(c))
 		return f
